@@ -14,6 +14,11 @@ use simcore::{Fnv, Rng};
 /// `max_storage_calls_in_one_query`: about 70-110 thousand at the quick tier).
 pub const BUDGET: u64 = 2_000_000;
 
+/// `VERIF_C19_BUDGET` overrides the budget when a replay is examined by hand (is it slow or endless?).
+fn budget() -> u64 {
+    std::env::var("VERIF_C19_BUDGET").ok().and_then(|s| s.parse().ok()).unwrap_or(BUDGET)
+}
+
 #[derive(Clone, Copy, Debug, Serialize, Deserialize, PartialEq)]
 pub enum Store {
     Memory,
@@ -52,7 +57,7 @@ fn run_on<S: StorageData>(db: &mut DbImpl<S>, plan: &Plan, max_calls: &mut u64, 
     let mut sh = Shadow::default();
     for (n, op) in plan.steps.iter().enumerate() {
         let c0 = wrapstore::calls();
-        wrapstore::set_budget(Some(BUDGET));
+        wrapstore::set_budget(Some(budget()));
         let r = catch(|| step(db, &mut sh, op));
         wrapstore::set_budget(None);
         *evals += 1;
